@@ -235,6 +235,15 @@ fn add(s: &mut Session, gen: &'static str, bytes: &[u8]) {
     s.push_oracle(gen, format!("chunk {}", hex(bytes)), imp, why);
 }
 
+/// A chunk from the valid builder (documented layout): rejection is an oracle failure too.
+fn add_valid(s: &mut Session, gen: &'static str, bytes: &[u8]) {
+    let (imp, mut why) = run_impl(bytes, false);
+    if why.is_none() && !imp.starts_with("ok ") {
+        why = Some("a chunk built from the documented layout was rejected".to_string());
+    }
+    s.push_oracle(gen, format!("chunk {}", hex(bytes)), imp, why);
+}
+
 /// A corrupted version of an accepted chunk: acceptance is an oracle failure.
 fn add_corrupted(s: &mut Session, gen: &'static str, bytes: &[u8]) {
     let (imp, why) = run_impl(bytes, true);
@@ -329,7 +338,7 @@ pub fn generate(s: &mut Session, thorough: bool) -> bool {
     for &l in &lens {
         let f = random_fields(&mut rng, &ids, l);
         let b = encode(&f);
-        add(s, "valid", &b);
+        add_valid(s, "valid", &b);
         if l <= 40 {
             small_valid.push(b);
         } else if l >= 1000 {
@@ -341,7 +350,7 @@ pub fn generate(s: &mut Session, thorough: bool) -> bool {
         let l = 1 + rng.below(9) as usize;
         let mut f = random_fields(&mut rng, &ids, l);
         f.device_id = id;
-        add(s, "valid-fields", &encode(&f));
+        add_valid(s, "valid-fields", &encode(&f));
     }
     for ps in [0u32, 1, 0x7FFF_FFFF, 0x8000_0000, u32::MAX - 1, u32::MAX] {
         for cs in [0u16, 1, 0x7FFF, 0x8000, 0xFFFE, 0xFFFF] {
@@ -354,7 +363,7 @@ pub fn generate(s: &mut Session, thorough: bool) -> bool {
                     f.chunk_id = cs.rotate_left(3);
                     f.chip = chip;
                     f.flags = flags;
-                    add(s, "valid-fields", &encode(&f));
+                    add_valid(s, "valid-fields", &encode(&f));
                 }
             }
         }
@@ -495,6 +504,32 @@ pub fn generate(s: &mut Session, thorough: bool) -> bool {
     }
     for n in 0..=64usize {
         add(s, "length", &vec![0u8; n]);
+    }
+    // every slice length 20..=48 with a plausible header, a declared length in (and next to)
+    // the window len-27..=len-24, zero padding and both CRC words recomputed: only lengths
+    // that are multiples of 4 and >= 28 may be accepted
+    for n in 20..=48usize {
+        for d in (n as i64 - 29)..=(n as i64 - 23) {
+            if d < 0 {
+                continue;
+            }
+            let f = random_fields(&mut rng, &ids, 1);
+            let mut b = header(&f, d as u16);
+            b.extend([0u8; 4]);
+            fix_header_crc(&mut b);
+            if n >= 24 {
+                let mut body = rng.bytes(n - 24);
+                for x in body.iter_mut().skip(d as usize) {
+                    *x = 0;
+                }
+                b.extend(&body);
+                b.extend([0u8; 4]);
+                fix_payload_crc(&mut b);
+            } else {
+                b.truncate(n);
+            }
+            add(s, "misaligned", &b);
+        }
     }
 
     // ---- (4) every single-bit flip of small chunks (exhaustive), no CRC repair
